@@ -427,6 +427,46 @@ fn scripted(tr: &mut Tracer, gen: &mut MoveGenerator, start: Board, moves: &[&st
     }
 }
 
+/// one deterministic marathon game on ONE board: 600 plies of knight shuffles with every castling right held,
+/// then 1.e4 e5 2.Ke2 Ke7 (double steps, rights lost), a queen-side rook excursion, and 600 more plies of
+/// shuffles; afterwards everything is taken back.  Histories far longer than any fixed window.
+fn marathon(tr: &mut Tracer, gen: &mut MoveGenerator) {
+    let mut board = Board::starting_position();
+    tr.reset(&board);
+    let mut line: Vec<&str> = vec![];
+    for _ in 0..150 {
+        line.extend(["g1f3", "g8f6", "f3g1", "f6g8"]);
+    }
+    line.extend(["e2e4", "e7e5", "e1e2", "e8e7", "a2a4", "a7a5", "a1a3", "a8a6"]);
+    for _ in 0..150 {
+        line.extend(["g1f3", "g8f6", "f3g1", "f6g8"]);
+    }
+    let mut stack: Vec<ChessMove> = vec![];
+    for (i, u) in line.iter().enumerate() {
+        let m = match find_uci(&mut board, gen, u) {
+            Some(m) => m,
+            None => return,
+        };
+        if !tr.apply(&mut board, &m) {
+            return;
+        }
+        tr.toggle(&mut board);
+        stack.push(m);
+        if i % 97 == 0 {
+            let last = stack.last().map(|m| (m.clone(), false));
+            if !tr.clone_check(&board, last.as_ref()) || !tr.moves(&mut board) {
+                return;
+            }
+        }
+    }
+    while let Some(m) = stack.pop() {
+        tr.toggle(&mut board);
+        if !tr.undo(&mut board, &m) {
+            return;
+        }
+    }
+}
+
 pub const SCRIPTS: [(&str, &str, &str); 12] = [
     ("rook-takes-rook-then-recurrence", "r3k2r/8/8/8/8/8/8/R3K2R b KQkq -", "h8g8 a1a8 e8e7 a8a7 e7e8 a7a8 e8e7 a8a7 e7e8 a7a8"),
     ("rook-takes-rook-then-recurrence-black", "r3k2r/8/8/8/8/8/8/R3K2R w KQkq -", "h1g1 a8a1 e1e2 a1a2 e2e1 a2a1 e1e2 a1a2 e2e1 a2a1"),
@@ -547,6 +587,12 @@ pub fn main(args: &[String]) {
             edit_history(&mut tr, &mut rng, plies);
             histories += 1;
         }
+    } else if scenario == "marathon" {
+        if let Err(p) = guarded(|| marathon(&mut tr, &mut gen)) {
+            writeln!(tr.out, "{}", json!({"ev": "Crash", "panic": p})).unwrap();
+            tr.events += 1;
+        }
+        histories += 1;
     } else if scenario == "scripts" {
         for (_, fen, mv) in SCRIPTS.iter() {
             let ms: Vec<&str> = mv.split_whitespace().collect();
